@@ -291,6 +291,49 @@ def run(ctx):
             md = float(numpy.abs(got - want).max()) if got.shape == want.shape else -1
             ctx.disagree(f"wick:driver:rank{rank}", f"wick('{pattern}', spinfree=False) differs from the tensor assembled from the "
                          f"model's normal form ({k} entries), max |diff| {md}", desc)
+    # ---- the spin-free variant of the driver (factor 2 for a contraction inside one spin slot, slot merging, final
+    #      spin sort) against its executable Lean model (`wicknfsf`; tie only, no theorem) ---------------------------------
+    for case in range(12 if quick else 150):
+        rank = rng.choice([1, 2, 2, 3]) if quick else rng.choice([1, 2, 2, 3, 3, 4])
+        nb_ = 2 if rank >= 3 else rng.choice([2, 3])
+        n = 2 * rank
+        half = [rng.randint(0, 1) for _ in range(rank)]
+        flags = half + [1 - x for x in half]          # positions k and k+rank share a spin: one creates, one annihilates
+        letters = "ijklmnop"[:n]
+        pattern = " ".join(letters[p] + ("^" if flags[p] else "") for p in range(n))
+        nr_ = numpy.random.RandomState(rng.randrange(2 ** 31))
+        data = [(nr_.randint(-3, 4, (nb_,) * (2 * r)) + 1j * nr_.randint(-3, 4, (nb_,) * (2 * r))).astype(numpy.complex128)
+                for r in range(1, rank + 1)]
+        ov = complex(nr_.randint(1, 4), nr_.randint(-2, 3))
+        desc = {"pattern": pattern, "norb": nb_, "rank": rank, "overlap": [ov.real, ov.imag], "case": case, "spinfree": True}
+        try:
+            got = numpy.asarray(wick_mod.wick(pattern, [d_.copy() for d_ in data], True, ov))
+        except Exception as exc:
+            ctx.disagree(f"wick-driver-raises:spinfree:{type(exc).__name__}", f"wick('{pattern}') raised {exc}", desc)
+            continue
+        toks = d.ask(f"wicknfsf {n} " + " ".join(f"{p} {flags[p]}" for p in range(n))).split()
+        pos = 0
+        k = int(toks[pos]); pos += 1
+        want = numpy.zeros((nb_,) * n, dtype=numpy.complex128)
+        for _ in range(k):
+            neg = int(toks[pos]); twos = int(toks[pos + 1]); nd = int(toks[pos + 2]); pos += 3
+            deltas = [(int(toks[pos + 2 * q]), int(toks[pos + 2 * q + 1])) for q in range(nd)]; pos += 2 * nd
+            nops = int(toks[pos]); pos += 1
+            ops = [(int(toks[pos + 3 * q]), int(toks[pos + 3 * q + 1])) for q in range(nops)]; pos += 3 * nops
+            fac = (-1.0 if neg else 1.0) * 2.0 ** twos
+            for idx in itertools.product(range(nb_), repeat=n):
+                if any(idx[x] != idx[y] for x, y in deltas):
+                    continue
+                if nops:
+                    want[idx] += fac * data[nops // 2 - 1][tuple(idx[l] for l, _ in ops)]
+                else:
+                    want[idx] += fac * ov
+        ctx.case(("wick-driver-sf", case, pattern))
+        ctx.count(f"wick-driver-spinfree:rank{rank}")
+        if got.shape != want.shape or numpy.abs(got - want).max() > 1e-9:
+            md = float(numpy.abs(got - want).max()) if got.shape == want.shape else -1
+            ctx.disagree(f"wick:driver-spinfree:rank{rank}", f"wick('{pattern}', spinfree=True) differs from the tensor assembled from "
+                         f"the model's normal form ({k} entries), max |diff| {md}", desc)
     # ---- string spaces longer than the internal blocks of the rank-2 kernels (100 x 100 blocks; >= 200 strings):
     #      randomly chosen tensor elements against the exact Spec value ------------------------------------------------
     from props.C10 import int_fill
